@@ -25,7 +25,8 @@ type FakeWriter struct {
 	DeadAt    int      // the transport is found dead at this write call (1-based), 0 = never
 	Out       [][]byte // accepted frames not yet taken by the harness (FIFO towards the peer)
 	Accepted  int
-	CloseCall int // CloseDataConnection calls
+	CloseCall int    // CloseDataConnection calls
+	OnWrite   func() // called after an accepted write or a close (harness wake-up)
 }
 
 var ErrDead = errors.New("transport dead")
@@ -50,8 +51,12 @@ func (w *FakeWriter) WriteMessageToWebsocketConnection(msg []byte) error {
 	}
 	w.Out = append(w.Out, append([]byte(nil), msg...))
 	w.Accepted++
-	w.mu.Unlock()
+	// logged under the queue's lock: the log order of accepted writes is the queue order
 	w.L.Add(w.Who, "write", len(msg), true, string(msg))
+	w.mu.Unlock()
+	if w.OnWrite != nil {
+		w.OnWrite()
+	}
 	return nil
 }
 
@@ -61,6 +66,9 @@ func (w *FakeWriter) CloseDataConnection(closeCode int, reason string) {
 	w.CloseCall++
 	w.mu.Unlock()
 	w.L.Add(w.Who, "closeData", closeCode, false, reason)
+	if w.OnWrite != nil {
+		w.OnWrite()
+	}
 }
 
 func (w *FakeWriter) IsDataConnectionClosed() (bool, error) {
@@ -141,6 +149,14 @@ type Provider struct {
 	reader      *Reader
 	SpineWriter api.ShipConnectionDataWriterInterface
 	OnState     func(model.ShipState)
+	OnEvent     func() // harness wake-up
+	OnSetup     func() // runs inside the setup callback, after the writer is known
+}
+
+func (p *Provider) Writer() api.ShipConnectionDataWriterInterface {
+	p.mu.Lock()
+	defer p.mu.Unlock()
+	return p.SpineWriter
 }
 
 func NewProvider(who string, l *Log, paired, auto, allowWait bool) *Provider {
@@ -220,6 +236,9 @@ func (p *Provider) HandleShipHandshakeStateUpdate(ski string, state model.ShipSt
 	if p.OnState != nil {
 		p.OnState(state)
 	}
+	if p.OnEvent != nil {
+		p.OnEvent()
+	}
 }
 
 func (p *Provider) SetupRemoteDevice(ski string, w api.ShipConnectionDataWriterInterface) api.ShipConnectionDataReaderInterface {
@@ -227,6 +246,9 @@ func (p *Provider) SetupRemoteDevice(ski string, w api.ShipConnectionDataWriterI
 	p.SpineWriter = w
 	p.mu.Unlock()
 	p.L.Add(p.Who, "setup", 0, false, ski)
+	if p.OnSetup != nil {
+		p.OnSetup()
+	}
 	return p.reader
 }
 
